@@ -45,6 +45,7 @@ let parse_bound s =
 type hent = { e : entry; mutable born : n option; mutable dead : n option }
 
 let tables : (int, table) Hashtbl.t = Hashtbl.create 64
+let btables : (int, btable) Hashtbl.t = Hashtbl.create 64
 let table_flags : (int, string) Hashtbl.t = Hashtbl.create 8
 let mts : (int, entry list) Hashtbl.t = Hashtbl.create 16
 let hist : hent list ref = ref []          (* newest first *)
@@ -91,6 +92,7 @@ let alive (h : hent) (s : n) =
 let h_at s = List.filter_map (fun h -> if alive h s then Some h.e else None) !hist
 
 let all_true _ _ = true
+let code_of_ty = function Value -> "V" | Tomb -> "T" | WeakTomb -> "W" | Ind -> "I"
 
 let show_entry_opt = function
   | None -> "."
@@ -457,10 +459,18 @@ let apply_filter_calls (pre : superversion) (post : superversion) =
   if calls <> [] && not (N.eqb pre.ver.vid post.ver.vid) then begin
     let g = post.sv_seq in
     let processed : (hent) list ref = ref [] in
+    (* the filter only ever sees entries of the tables this compaction consumed: an equal value
+       of the same key that still sits in a memtable or in an untouched table is not a candidate
+       (the filter API shows key and value, not the seqno) *)
+    let post_ids = List.map (fun t -> int_of_n t.tid) (all_tables post.ver) in
+    let inputs = List.filter (fun t -> not (List.mem (int_of_n t.tid) post_ids)) (all_tables pre.ver) in
+    let in_inputs (e : entry) =
+      List.exists (fun t -> List.exists (fun e' -> key_eqb e'.ukey e.ukey && N.eqb e'.seq e.seq) t.ents) inputs in
     List.iter (fun (kh, vh, verdict) ->
         let k = bytes_of_hex kh and v = bytes_of_hex vh in
         let cands = List.filter (fun h -> h.dead = None && (match h.born with None -> true | Some b -> not (N.eqb b g)) && key_eqb h.e.ukey k
-                                          && not (is_tomb h.e) && list_N_eqb h.e.val0 v && not (List.memq h !processed)) !hist in
+                                          && not (is_tomb h.e) && list_N_eqb h.e.val0 v && not (List.memq h !processed)
+                                          && (inputs = [] || in_inputs h.e)) !hist in
         let best = List.fold_left (fun acc h -> match acc with None -> Some h | Some b -> if N.ltb b.e.seq h.e.seq then Some h else acc) None cands in
         match best with
         | None -> fail "filter-unknown-item" (Printf.sprintf "filter was shown key=%s value=%s which matches no live write" kh vh)
@@ -546,7 +556,7 @@ let () =
           (match latest !cur with
            | Some l -> reopen_expect := Some (List.map (fun lvl -> List.map (fun r -> List.map (fun t -> (int_of_n t.tid, int_of_n t.gseq, List.map logical t.ents)) r) lvl) l.ver.levels)
            | None -> ());
-          Hashtbl.reset tables; Hashtbl.reset mts; Hashtbl.reset inv_cache;
+          Hashtbl.reset tables; Hashtbl.reset btables; Hashtbl.reset mts; Hashtbl.reset inv_cache;
           Hashtbl.reset snaps;
           bump "reopens"
         | [ "verdict"; k; v ] -> Hashtbl.replace verdicts k v
@@ -591,6 +601,57 @@ let () =
                   slo = n_of_string slo; shi = n_of_string shi; n_items = n_of_string ni; n_tomb = n_of_string nt; n_weak = n_of_string nw } in
        Hashtbl.replace tables (int_of_string id) tb;
        if flags <> [] then Hashtbl.replace table_flags (int_of_string id) (String.concat "," flags)
+     | [ "TB"; tid; kind; nb ] ->
+       (* block structure of a real table: validate it with the extracted checker whose
+          soundness is C12_btable_check_ok (=> every theorem of Proofs/BlockIndex.v applies
+          to this very table) and keep it for the table-level point reads below *)
+       let tid_i = int_of_string tid in
+       if String.length kind >= 4 && String.sub kind 0 4 = "ERR:" then
+         fail "block-index" (Printf.sprintf "table %s: reading the block structure failed: %s" tid kind)
+       else begin
+         let nblocks = int_of_string nb in
+         let blocks = ref [] and handles = ref [] in
+         for bi = 0 to nblocks - 1 do
+           (match String.split_on_char ' ' lines.(!i) with
+            | [ "BH"; ek; sq; cnt ] ->
+              incr i;
+              let items = ref [] in
+              for _ = 1 to int_of_string cnt do
+                (match String.split_on_char ' ' lines.(!i) with
+                 | [ "be"; k; sq'; ty ] -> items := { ukey = bytes_of_hex k; seq = n_of_string sq'; ty = ty_of_code ty; val0 = [] } :: !items
+                 | _ -> failwith ("bad block entry line: " ^ lines.(!i)));
+                incr i
+              done;
+              blocks := List.rev !items :: !blocks;
+              handles := { h_end_key = bytes_of_hex ek; h_seqno = n_of_string sq; h_idx = nat_of_int bi } :: !handles
+            | _ -> failwith ("bad block handle line: " ^ lines.(!i)))
+         done;
+         (match Hashtbl.find_opt tables tid_i with
+          | None -> ()
+          | Some tb ->
+            let blocks = List.rev !blocks and hs = List.rev !handles in
+            let bt = { bt_id = tb.tid; bt_gseq = tb.gseq; bt_slo = tb.slo; bt_nblocks = nat_of_int nblocks;
+                       bt_blocks = blocks; bt_index = IxFull hs } in
+            bump "block_tables"; bump ~by:nblocks "blocks";
+            if nblocks >= 2 then bump "multi_block_tables";
+            if not (btable_check bt) then
+              fail "block-index" (Printf.sprintf "table %s (%s index, %d blocks): btable_check rejects the dumped block structure (empty block, unsorted items, or the index handles are not (last key, last seqno) of each block)" tid kind nblocks)
+            else bump "block_index_checked";
+            let flat = List.concat blocks in
+            if List.length flat <> List.length tb.ents
+            || not (List.for_all2 (fun (a : entry) (b : entry) -> key_eqb a.ukey b.ukey && N.eqb (N.add a.seq tb.gseq) b.seq && a.ty = b.ty) flat tb.ents) then
+              fail "block-content" (Printf.sprintf "table %s: the items of its data blocks (+ global seqno) are not the items its iterator returns" tid);
+            Hashtbl.replace btables tid_i bt)
+       end
+     | [ "TG"; tid; k; sq; r ] ->
+       (match Hashtbl.find_opt btables (int_of_string tid) with
+        | None -> ()
+        | Some bt ->
+          bump "table_gets";
+          let m = btable_get all_true bt (bytes_of_hex k) (n_of_string sq) in
+          let ms = (match m with None -> "." | Some e -> Printf.sprintf "%s:%s" (string_of_n e.seq) (code_of_ty e.ty)) in
+          if ms <> r then fail "table-get" (Printf.sprintf "table=%s key=%s S=%s crate=%s model=%s" tid k sq r ms)
+          else bump "table_gets_agree")
      | "D" :: cnt :: kvs ->
        let kv = List.filter_map (fun s -> match String.index_opt s '=' with
            | Some j -> Some (String.sub s 0 j, String.sub s (j + 1) (String.length s - j - 1)) | None -> None) kvs in
